@@ -107,7 +107,7 @@ theorem parseLCPOptionsLoop_spec (data : Bytes) : ∀ (k off : Nat) (acc : List 
   | zero =>
     intro off acc n hk
     rw [parseLCPOptionsLoop, dif_neg (by omega)]
-    exact Within.pure' (by omega)
+    split <;> exact Within.pure' (by omega)
   | succ k ih =>
     intro off acc n hk
     rw [parseLCPOptionsLoop]
@@ -122,7 +122,7 @@ theorem parseLCPOptionsLoop_spec (data : Bytes) : ∀ (k off : Nat) (acc : List 
             exact (ih _ _ _ (by omega)).mono (by omega)
           · rw [pure_eq_ok, ok_bind]
             exact (ih _ _ _ (by omega)).mono (by omega)
-    · exact Within.pure' (by omega)
+    · split <;> exact Within.pure' (by omega)
 
 theorem parseLCPOptions_spec (data : Bytes) : Within (parseLCPOptions data) (data.length + 1) :=
   (parseLCPOptionsLoop_spec data _ 0 [] 1 (Nat.le_refl _)).mono (by omega)
@@ -406,8 +406,10 @@ theorem parseLCPOptionsLoop_count (data : Bytes) : ∀ (k off : Nat) (acc : List
   | zero =>
     intro off acc n opts m hk h
     rw [parseLCPOptionsLoop, dif_neg (by omega)] at h
-    injection h with h; injection h with h1 h2; injection h1 with h1
-    subst h1; subst h2; simp
+    split at h
+    · cases h
+    · injection h with h; injection h with h1 h2; injection h1 with h1
+      subst h1; subst h2; simp
   | succ k ih =>
     intro off acc n opts m hk h
     rw [parseLCPOptionsLoop] at h
@@ -424,8 +426,10 @@ theorem parseLCPOptionsLoop_count (data : Bytes) : ∀ (k off : Nat) (acc : List
           · rw [pure_eq_ok, ok_bind] at h
             have := ih _ _ _ _ _ (by omega) h
             simp at this; omega
-    · injection h with h; injection h with h1 h2; injection h1 with h1
-      subst h1; subst h2; simp
+    · split at h
+      · cases h
+      · injection h with h; injection h with h1 h2; injection h1 with h1
+        subst h1; subst h2; simp
 
 /-- the number of parsed options is bounded by the steps taken -/
 theorem parseLCPOptions_count {data : Bytes} {opts : List LCPOption} {m : Nat}
